@@ -278,6 +278,12 @@ Proof.
   induction l as [|x r IH]; [reflexivity|]. cbn [map forallb is_update_on]. rewrite !String.eqb_refl. cbn [andb]. exact IH.
 Qed.
 
+Lemma app_single {A} : forall (x y : A) pre, [x] = pre ++ [y] -> pre = [].
+Proof.
+  intros x y pre H. destruct pre as [|p0 pre']; [reflexivity|]. cbn in H. inversion H as [[H1 H2]].
+  destruct pre'; discriminate.
+Qed.
+
 Lemma modify_pre_updates : forall s P a t c col,
   modify_target a = Some (t, c) -> lookup_column s t c = Some col ->
   forall pre d, gen s P a = Ok (pre ++ [SModifyColumn t d]) -> forallb (is_update_on t c) pre = true.
@@ -293,13 +299,9 @@ Proof.
     destruct nl; [reflexivity|]. destruct (normalize_fill_with fw); [|reflexivity].
     cbn [forallb is_update_on]. rewrite !String.eqb_refl. reflexivity.
   - unfold gen_modify_default, with_column in G. rewrite Ft, Fc in G. inversion G as [G'].
-    change [SModifyColumn t (sea_coldef (set_default (option_map default_of_string nd) col))]
-      with ([] ++ [SModifyColumn t (sea_coldef (set_default (option_map default_of_string nd) col))]) in G'.
-    apply app_inj_tail in G'. destruct G' as [G' _]. subst pre. reflexivity.
+    cbn zeta in G'. apply app_single in G'. subst pre. reflexivity.
   - unfold gen_modify_comment, with_column in G. rewrite Ft, Fc in G. inversion G as [G'].
-    change [SModifyColumn t (with_comment nc (sea_coldef (set_comment nc col)))]
-      with ([] ++ [SModifyColumn t (with_comment nc (sea_coldef (set_comment nc col)))]) in G'.
-    apply app_inj_tail in G'. destruct G' as [G' _]. subst pre. reflexivity.
+    cbn zeta in G'. apply app_single in G'. subst pre. reflexivity.
 Qed.
 
 Theorem sim_modify_column : forall s a, modify_sim_hyp s a = true -> action_sim s a.
@@ -311,7 +313,6 @@ Proof.
   apply Bool.andb_true_iff in H; destruct H as [H Hwfa].
   apply Bool.andb_true_iff in H; destruct H as [H Hpknn].
   apply Bool.andb_true_iff in H; destruct H as [H Hdef].
-  apply Bool.andb_true_iff in H; destruct H as [H Hauto].
   unfold wf_names in H. apply Bool.andb_true_iff in H. destruct H as [Hndt Hndc].
   destruct (modify_preserves s P a t c col s' Ht Hl Ha Hdef) as [pre [d [col' [G [_ [Hl' [Hname [Hrest [Hda [_ _]]]]]]]]]].
   pose proof (apply_modify_lookup s a t c col s' Ht Hl Ha) as Hl2. rewrite Hl' in Hl2. inversion Hl2; subst col'. clear Hl2.
@@ -365,8 +366,7 @@ Proof.
     - rewrite Hpkc in Hpknn. destruct (mem_str c _); cbn [negb orb] in Hpknn.
       + apply Bool.negb_true_iff in Hpknn. rewrite Hpknn. reflexivity.
       + apply Bool.orb_false_r.
-    - unfold is_auto_col, constraints_of in Hauto. rewrite Ft in Hauto. apply Bool.negb_true_iff in Hauto.
-      rewrite Hauto. reflexivity. }
+    - unfold is_auto_col, constraints_of. rewrite Ft. reflexivity. }
   assert (Htb : mkMTable (tb_name (catalog_of_table td))
                   (map (fun x => if String.eqb (mc_name x) c then mcol_of_def d else x) (tb_cols (catalog_of_table td)))
                   (tb_pk (catalog_of_table td)) (tb_indexes (catalog_of_table td)) (tb_fks (catalog_of_table td))
